@@ -1,19 +1,141 @@
-import Sck.Proofs.FlowProof
+import Sck.Proofs.FlowCert
+import Sck.Proofs.FlowCut
+import Sck.Proofs.FlowTotal
 
-/-! # C08 — Ford–Fulkerson returns a maximum flow and a matching minimum cut
-(partial correctness of the executable model; the checker/totality theorems are added by `Sck/Proofs/FlowCert.lean`). -/
+/-! # C08 — max-flow / min-cut
 
-/-- whatever the executable model returns is a flow, an s–t cut, and `value = cutCap` -/
-theorem C08_ff_correct (N : Net) (hwf : N.WF) (fuel : Nat) (f : Flow) (S : List Int)
+"For every flow network with non-negative integer capacities, the max-flow routine terminates and returns a
+flow that respects every edge capacity and conserves flow at every vertex other than source and sink (a pair
+of opposite edges is reported as a net flow), whose value equals the true maximum flow. The returned vertex
+set contains the source, excludes the sink, and the total capacity of edges leaving it equals that value."
+
+Vocabulary (`Sck/Proofs/Flow1.lean`): `IsFlow V cap s t f` says that the NET flow function `f` is skew
+symmetric (`f u v = - f v u`: opposite edges are reported as a net flow), respects capacities
+(`f u v ≤ cap u v` for all `u v`) and is conserved at every vertex of `V` other than `s`, `t`;
+`flowValue V s f = ∑ v ∈ V, f s v`; `cutCap V cap S = ∑ u ∈ S, ∑ v ∈ V \ S, cap u v`.
+`netWfB` (decidable, `Sck/Model/FlowCert.lean`): vertices duplicate-free, `s ≠ t` both vertices, every edge
+joins vertices, no two edges with the same (tail, head).  Capacities are arbitrary `Nat`s (zero allowed,
+unbounded), edges into the source / out of the sink / opposite pairs / self loops are allowed.
+
+Property theorems only (helper lemmas live in `Sck/Proofs`). -/
+
+open Finset
+
+/-- **Model, partial correctness.**  Whatever the executable model `ff` returns is a flow of maximum value,
+and the returned vertex set is an s–t cut whose capacity equals that value (hence a minimum cut). -/
+theorem C08_ff_maxflow_mincut (N : Net) (hwf : netWfB N = true) (fuel : Nat) (f : Flow) (S : List Int)
     (h : ff N fuel = .ok (f, S)) :
-    IsFlow N.verts.toFinset N.cap N.s N.t f ∧ N.s ∈ S ∧ N.t ∉ S ∧ (∀ v ∈ S, v ∈ N.verts) ∧
-    flowValue N.verts.toFinset N.s f = cutCap N.verts.toFinset N.cap S.toFinset :=
-  ff_correct N hwf fuel f S h
+    IsFlow N.verts.toFinset N.cap N.s N.t f ∧
+    (∀ g, IsFlow N.verts.toFinset N.cap N.s N.t g →
+      flowValue N.verts.toFinset N.s g ≤ flowValue N.verts.toFinset N.s f) ∧
+    (N.s ∈ S ∧ N.t ∉ S ∧ (∀ v ∈ S, v ∈ N.verts) ∧
+      cutCap N.verts.toFinset N.cap S.toFinset = flowValue N.verts.toFinset N.s f) ∧
+    (∀ T : Finset Int, T ⊆ N.verts.toFinset → N.s ∈ T → N.t ∉ T →
+      cutCap N.verts.toFinset N.cap S.toFinset ≤ cutCap N.verts.toFinset N.cap T) := by
+  have hwf' := ((netWfB_iff N).mp hwf).toWF
+  obtain ⟨hf, hs, ht, hsub, hval⟩ := ff_correct N hwf' fuel f S h
+  have hcert := maxflow_cert N.verts.toFinset N.cap N.s N.t f hf S.toFinset
+    (fun v hv => List.mem_toFinset.mpr (hsub v (List.mem_toFinset.mp hv)))
+    (List.mem_toFinset.mpr hs) (fun hm => ht (List.mem_toFinset.mp hm)) hval
+  exact ⟨hf, hcert.1, ⟨hs, ht, hsub, hval.symm⟩, hcert.2⟩
 
-/-- a flow whose value equals the capacity of some cut is maximum, and that cut is minimum -/
-theorem C08_maxflow_cert {ι : Type} [DecidableEq ι] (V : Finset ι) (cap : ι → ι → ℤ) (s t : ι) (f : ι → ι → ℤ)
-    (hf : IsFlow V cap s t f) (S : Finset ι) (hS : S ⊆ V) (hs : s ∈ S) (ht : t ∉ S)
-    (heq : flowValue V s f = cutCap V cap S) :
-    (∀ g, IsFlow V cap s t g → flowValue V s g ≤ flowValue V s f) ∧
-    (∀ S', S' ⊆ V → s ∈ S' → t ∉ S' → cutCap V cap S ≤ cutCap V cap S') :=
-  maxflow_cert V cap s t f hf S hS hs ht heq
+/-- **Model, totality.**  On a well-formed network the model never fails once the fuel is at least
+`ffFuel N = 1 + Σ_{v ≠ s} cap s v` (each augmentation raises the value by at least one and the value is bounded
+by the capacity of the cut `{s}`; the search always produces a duplicate-free residual s–t path when the sink
+is reachable, and the final reachable set is closed). -/
+theorem C08_ff_total (N : Net) (hwf : netWfB N = true) (fuel : Nat) (hfuel : ffFuel N ≤ fuel) :
+    ∃ r, ff N fuel = .ok r :=
+  ff_total_of_le N hwf fuel hfuel
+
+/-- **Model, total correctness.**  With sufficient fuel the model terminates with a maximum flow and a minimum
+cut of equal value. -/
+theorem C08_ff_terminates_with_maxflow_mincut (N : Net) (hwf : netWfB N = true) (fuel : Nat)
+    (hfuel : ffFuel N ≤ fuel) :
+    ∃ f S, ff N fuel = .ok (f, S) ∧
+    IsFlow N.verts.toFinset N.cap N.s N.t f ∧
+    (∀ g, IsFlow N.verts.toFinset N.cap N.s N.t g →
+      flowValue N.verts.toFinset N.s g ≤ flowValue N.verts.toFinset N.s f) ∧
+    (N.s ∈ S ∧ N.t ∉ S ∧ (∀ v ∈ S, v ∈ N.verts) ∧
+      cutCap N.verts.toFinset N.cap S.toFinset = flowValue N.verts.toFinset N.s f) ∧
+    (∀ T : Finset Int, T ⊆ N.verts.toFinset → N.s ∈ T → N.t ∉ T →
+      cutCap N.verts.toFinset N.cap S.toFinset ≤ cutCap N.verts.toFinset N.cap T) := by
+  obtain ⟨⟨f, S⟩, h⟩ := ff_total_of_le N hwf fuel hfuel
+  exact ⟨f, S, h, C08_ff_maxflow_mincut N hwf fuel f S h⟩
+
+/-- **Edge-level reading of the flow laws.**  On a well-formed network a flow sends along every edge
+`(u, v, c)` at most `c` and at least minus the capacity of the opposite edge (so at least `0` when the
+opposite edge is absent). -/
+theorem C08_edge_bounds (N : Net) (hwf : netWfB N = true) (f : Flow)
+    (hf : IsFlow N.verts.toFinset N.cap N.s N.t f) (u v : Int) (c : Nat) (he : (u, v, c) ∈ N.edges) :
+    f u v ≤ c ∧ - N.cap v u ≤ f u v ∧ ((∀ c', (v, u, c') ∉ N.edges) → 0 ≤ f u v) := by
+  have hwf' := (netWfB_iff N).mp hwf
+  have h1 := hf.le_cap u v
+  rw [cap_of_edge hwf' he] at h1
+  have h2 := hf.le_cap v u
+  rw [hf.skew v u] at h2
+  refine ⟨h1, by omega, fun hno => ?_⟩
+  have : N.cap v u ≤ 0 := by
+    by_contra hpos
+    obtain ⟨c', hc'⟩ := cap_pos_edge (N := N) (u := v) (v := u) (by omega)
+    exact hno c' hc'
+  omega
+
+/-- **Certificate check for the implementation's output.**  If `flowCutOk` accepts the flow dict `fl` and the
+vertex set `S` reported by the implementation for a well-formed network, then the dict has exactly one entry
+per edge, the net flow it denotes is a flow of maximum value, and `S` is an s–t cut of capacity equal to that
+value, hence a minimum cut. -/
+theorem C08_flowCutOk_sound (N : Net) (fl : List (Int × Int × Int)) (S : List Int)
+    (hwf : netWfB N = true) (h : flowCutOk N fl S = true) :
+    IsFlow N.verts.toFinset N.cap N.s N.t (flowOf fl) ∧
+    (∀ g, IsFlow N.verts.toFinset N.cap N.s N.t g →
+      flowValue N.verts.toFinset N.s g ≤ flowValue N.verts.toFinset N.s (flowOf fl)) ∧
+    (N.s ∈ S ∧ N.t ∉ S ∧ (∀ v ∈ S, v ∈ N.verts) ∧
+      cutCap N.verts.toFinset N.cap S.toFinset = flowValue N.verts.toFinset N.s (flowOf fl)) ∧
+    (∀ T : Finset Int, T ⊆ N.verts.toFinset → N.s ∈ T → N.t ∉ T →
+      cutCap N.verts.toFinset N.cap S.toFinset ≤ cutCap N.verts.toFinset N.cap T) ∧
+    EntriesExact N fl :=
+  flowCutOk_sound N fl S hwf h
+
+/-- **The model's cut is canonical.**  The vertex set returned by `ff` is contained in the source side of
+every minimum s–t cut (it is the set of vertices reachable in the residual graph). -/
+theorem C08_ff_cut_minimal (N : Net) (hwf : netWfB N = true) (fuel : Nat) (f : Flow) (S : List Int)
+    (h : ff N fuel = .ok (f, S))
+    (T : Finset Int) (hTV : T ⊆ N.verts.toFinset) (hs : N.s ∈ T) (ht : N.t ∉ T)
+    (hmin : ∀ T' : Finset Int, T' ⊆ N.verts.toFinset → N.s ∈ T' → N.t ∉ T' →
+      cutCap N.verts.toFinset N.cap T ≤ cutCap N.verts.toFinset N.cap T') :
+    ∀ v ∈ S, v ∈ T :=
+  ff_cut_minimal N ((netWfB_iff N).mp hwf).toWF fuel f S h T hTV hs ht hmin
+
+/-- **Model cut vs. certified implementation cut.**  The model's cut is contained in every cut accepted by the
+certificate check, and both have the same capacity; so when the harness finds the two sets equal, the
+implementation returned the inclusion-least minimum cut. -/
+theorem C08_ff_cut_subset_certified (N : Net) (hwf : netWfB N = true) (fuel : Nat) (f : Flow) (S : List Int)
+    (h : ff N fuel = .ok (f, S)) (fl : List (Int × Int × Int)) (S' : List Int)
+    (hc : flowCutOk N fl S' = true) :
+    (∀ v ∈ S, v ∈ S') ∧
+    flowValue N.verts.toFinset N.s (flowOf fl) = flowValue N.verts.toFinset N.s f ∧
+    cutCap N.verts.toFinset N.cap S'.toFinset = cutCap N.verts.toFinset N.cap S.toFinset := by
+  obtain ⟨hf', hmax', ⟨hs', ht', hsub', hval'⟩, hmin', _⟩ := flowCutOk_sound N fl S' hwf hc
+  obtain ⟨hf, hmax, ⟨hs, ht, hsub, hval⟩, hmin⟩ := C08_ff_maxflow_mincut N hwf fuel f S h
+  have hsub := C08_ff_cut_minimal N hwf fuel f S h S'.toFinset
+    (fun v hv => List.mem_toFinset.mpr (hsub' v (List.mem_toFinset.mp hv)))
+    (List.mem_toFinset.mpr hs') (fun hm => ht' (List.mem_toFinset.mp hm)) hmin'
+  have hv : flowValue N.verts.toFinset N.s (flowOf fl) = flowValue N.verts.toFinset N.s f :=
+    le_antisymm (hmax _ hf') (hmax' _ hf)
+  refine ⟨fun v hv => List.mem_toFinset.mp (hsub v hv), hv, ?_⟩
+  rw [hval, hval', hv]
+
+/-! ### the hypotheses are satisfiable on concrete non-trivial instances -/
+
+/-- a 4-vertex network with an edge into the source -/
+example : netWfB exNet = true := by decide
+example : flowCutOk exNet exFl [0] = true := by decide
+/-- an opposite pair of edges reported as net flows, vertices named `-1`, `-2` -/
+example : netWfB exNet2 = true ∧
+    flowCutOk exNet2 [(5,-1,-1),(-1,5,1),(-2,5,-1),(5,-2,1)] [-1, 5] = true := by decide
+/-- a wrong flow (conservation violated at vertex 1) is rejected -/
+example : flowCutOk exNet [(0,1,3),(0,2,2),(1,2,1),(1,3,1),(2,3,3),(3,0,0)] [0] = false := by decide
+/-- the model run on the 4-vertex example with the proved-sufficient fuel: cut `{0}`, value `5` -/
+example : (match ff exNet (ffFuel exNet) with
+    | .ok (f, S) => (S, valueL exNet f)
+    | .error _ => ([], -1)) = ([0], 5) := by decide +kernel
